@@ -170,7 +170,15 @@ static std::string summariseReport(const std::string &rep)
     for (size_t i = 0; i < frames.size(); ++i) {
         fr += (i ? ";" : "") + frames[i];
     }
-    return " !kind=" + kind + " !frames=" + (fr.empty() ? "-" : fr);
+    // functions of interest anywhere in the report (a deep recursion shows its innermost frames first)
+    std::string has;
+    for (const char *f : {"transferUnitsRenamingIfRequired", "checkUnitsForCycles", "fetchUnits", "flattenUnitsImports", "flattenComponent",
+                          "retrieveUnitsDependencies"}) {
+        if (rep.find(f) != std::string::npos) {
+            has += (has.empty() ? "" : ",") + std::string(f);
+        }
+    }
+    return " !kind=" + kind + " !frames=" + (fr.empty() ? "-" : fr) + " !has=" + (has.empty() ? "-" : has);
 }
 
 static std::string slurp(const std::string &path)
